@@ -1,1 +1,35 @@
 """Input predicates for known_findings.json entries (each takes (case, detail))."""
+import yaml as _yaml
+
+
+def _token_kinds(text, Loader=None):
+    from .oracles.grammar import TOKEN_KIND
+    out = []
+    try:
+        for t in _yaml.scan(text, Loader=Loader or _yaml.CLoader):
+            out.append(TOKEN_KIND[type(t).__name__])
+    except _yaml.YAMLError:
+        pass
+    return out
+
+
+def flowseq_empty_key_text(text):
+    """the text has, inside a flow *sequence*, a '?' KEY token immediately followed by ':', ',' or ']'
+    (libyaml's parse_flow_sequence_entry_mapping_key then skips that following token)"""
+    if not isinstance(text, str):
+        return False
+    ks = _token_kinds(text)
+    stack = []
+    for i, k in enumerate(ks):
+        if k in ('FSS', 'FMS'):
+            stack.append(k)
+        elif k in ('FSE', 'FME'):
+            if stack:
+                stack.pop()
+        elif k == 'KEY' and stack and stack[-1] == 'FSS' and i + 1 < len(ks) and ks[i + 1] in ('VAL', 'FENT', 'FSE'):
+            return True
+    return False
+
+
+def c09_flowseq_empty_key(case, detail):
+    return detail.startswith('c ') and flowseq_empty_key_text(case.get('input'))
